@@ -127,10 +127,11 @@ class Engine(ExprMixin, CallMixin, StmtMixin):
         self.refinements[(impl, iface_key)] = (key, list(closure_requires), list(bind.keys()))
         return c
 
-    def enumerator(self, name, props, scope, run):
+    def enumerator(self, name, props, scope, run, always=False):
         """registers a bounded enumerative refuter: `run(seed, focus)` drives the REAL code on small inputs against
         an oracle written from the property statement and returns a replay dict. Never counted as proof."""
-        self.enumerators.append({"name": name, "props": list(props), "scope": list(scope), "run": run})
+        self.enumerators.append({"name": name, "props": list(props), "scope": list(scope), "run": run,
+                                 "always": always})
 
     def cls(self, name, **kw):
         d = ClassDecl(name, **kw)
